@@ -11,6 +11,10 @@
 #include "all.h"
 #include "cli_spec.h"
 #include "decls_table.h"
+#ifndef DECL
+#define DECL 1
+#endif
+#define D (DECLS[DECL])
 
 #ifndef NTOK
 #define NTOK 0
@@ -70,6 +74,25 @@ u8* ir2c_getenv(u8* name)
     return 0;
 }
 
+/* copy the result kept on the C++ side into the harness' own record, through scalar accessors only */
+static void fetch_str(struct res_str* d, u32 slot, u32 ent, u32 which)
+{
+    d->len = res_str_len(slot, ent, which);
+    for (u32 i = 0; i < RES_STR; ++i) d->s[i] = i < d->len ? (char)res_str_byte(slot, ent, which, i) : 0;
+}
+static void fetch(struct parse_result* r, u32 slot)
+{
+    memset(r, 0, sizeof *r);
+    r->status = (int)res_status(slot);
+    if (r->status != 0) return;
+    r->npos = res_npos(slot);
+    for (u32 j = 0; j < r->npos && j < MAX_VALS; ++j) fetch_str(&r->pos[j], slot, 0, 100 + j);
+    for (u32 k = 0; k < D.n; ++k) {
+        r->e[k].given = (int)res_given(slot, k); r->e[k].provided = res_provided(slot, k); r->e[k].present = res_present(slot, k); r->e[k].count = res_count(slot, k);
+        if (r->e[k].present) fetch_str(&r->e[k].value, slot, k, 0);
+        for (u32 j = 0; j < r->e[k].count && j < MAX_VALS; ++j) fetch_str(&r->e[k].vals[j], slot, k, 1 + j);
+    }
+}
 static int str_eq(const struct res_str* a, const char* b, unsigned bl)
 {
     if (a->len != bl) return 0;
@@ -169,7 +192,8 @@ int main(void)
         ASSUME(idx >= -n - 1 && idx <= n);
         u32 br = in_range(0, 1);
         struct res_str out; memset(&out, 0, sizeof out);
-        u32 st = k_positional_index(&D, ntok + 1, argv, idx, br, &out);
+        u32 st = k_positional_index(DECL, ntok + 1, (u8**)argv, (u32)idx, br);
+        if (st == 0) fetch_str(&out, 0, 0, 200);
         CHECK(st != 6, "C12 index: the parse itself succeeds (harness sanity)");
         if (idx >= 0 && idx < n) CHECK(st == 0 && str_eq(&out, sp0.pos[idx], sp0.plen[idx]), "C12: index i addresses the i-th positional");
         else if (idx < 0 && idx >= -n) CHECK(st == 0 && str_eq(&out, sp0.pos[n + idx], sp0.plen[n + idx]), "C12: index -k addresses the k-th positional from the end");
@@ -188,8 +212,10 @@ int main(void)
     TOKBUF(u0, U0, "U0"); TOKBUF(u1, U1, "U1"); TOKBUF(u2, U2, "U2");
     const char* argvb[4] = { "app", u0, u1, u2 };
     struct parse_result r1, r2; memset(&r1, 0, sizeof r1); memset(&r2, 0, sizeof r2);
-    k_parse_twice(&D, ntok_b + 1, argvb, ntok + 1, argv, &r1, &r2);
-    k_parse(&D, ntok + 1, argv, &r);
+    k_parse_twice(DECL, ntok_b + 1, (u8**)argvb, ntok + 1, (u8**)argv);
+    fetch(&r1, 1); fetch(&r2, 2);
+    k_parse(DECL, ntok + 1, (u8**)argv);
+    fetch(&r, 0);
     CHECK(r.status != 6 && r2.status != 6, "harness sanity: declaration succeeds");
     CHECK(res_same(&r2, &r), "C14: the second parse on one parser object gives what a fresh identical parser gives");
     WITNESS_AT(r1.status == 0 && r2.status == 0, "both parses succeed");
@@ -198,7 +224,8 @@ int main(void)
     obs_result("first", &r1); obs_result("second", &r2); obs_result("fresh", &r);
     HARNESS_END();
 #else
-    k_parse(&D, ntok + 1, argv, &r);
+    k_parse(DECL, ntok + 1, (u8**)argv);
+    fetch(&r, 0);
     struct spec_result sp; spec_parse(&D, ntok, argv + 1, env_val, &sp);
     obs_result("impl", &r);
     OBS("spec status=%d why=%d npos=%u\n", sp.status, sp.why, sp.npos);
